@@ -2,7 +2,7 @@
 # usage: try_patch.sh <patch.diff> <PID> [<PID> ...] — run checks against a scratch worktree of /repo HEAD with the patch applied
 pf="$1"; shift
 tag=$(echo "$pf" | md5sum | cut -c1-8)
-wt=/tmp/ts/p-$tag; mkdir -p /tmp/ts; rm -rf "$wt"
+wt=/tmp/ts/p-$tag; mkdir -p /tmp/ts; git -C /repo worktree remove --force "$wt" 2>/dev/null; rm -rf "$wt"; git -C /repo worktree prune
 git -C /repo worktree add -q --detach "$wt" HEAD || exit 2
 git -C "$wt" apply "$pf" || { echo "patch does not apply"; git -C /repo worktree remove --force "$wt"; exit 3; }
 for p in "$@"; do
